@@ -89,40 +89,69 @@ impl<'a> Gen<'a> {
         n.to_string()
     }
     fn number(&mut self) -> String {
+        let lv = self.lv;
         let r = &mut *self.rng;
-        let digs = |r: &mut Rng, n: usize| -> String { (0..n).map(|_| (b'0' + r.below(10) as u8) as char).collect() };
-        let hex = |r: &mut Rng, n: usize| -> String { (0..n).map(|_| *r.pick(&['0', '1', '9', 'a', 'f', 'A', 'F', 'e', 'E', '7'])).collect() };
-        let exp = |r: &mut Rng, c: char| -> String {
+        fn digs(r: &mut Rng, n: usize) -> String {
+            (0..n).map(|_| (b'0' + r.below(10) as u8) as char).collect()
+        }
+        fn hex(r: &mut Rng, n: usize) -> String {
+            (0..n).map(|_| *r.pick(&['0', '1', '9', 'a', 'f', 'A', 'F', 'e', 'E', '7'])).collect()
+        }
+        fn exp(r: &mut Rng, c: char) -> String {
             let c = if r.chance(1, 2) { c } else { c.to_ascii_uppercase() };
             let sign = *r.pick(&["", "+", "-"]);
             let n = 1 + r.below(3);
             format!("{}{}{}", c, sign, digs(r, n))
-        };
+        }
+        let (n1, n2, n3) = (1 + r.below(3), r.below(3), 1 + r.below(6));
         match r.below(14) {
-            0 => digs(r, 1 + r.below(5)),
-            1 => format!("{}.", digs(r, 1 + r.below(3))),
-            2 => format!("{}.{}", digs(r, 1 + r.below(3)), digs(r, 1 + r.below(3))),
-            3 => format!(".{}", digs(r, 1 + r.below(3))),
-            4 => format!("{}{}", digs(r, 1 + r.below(3)), exp(r, 'e')),
-            5 => format!("{}.{}{}", digs(r, 1 + r.below(2)), digs(r, r.below(3)), exp(r, 'e')),
-            6 => format!(".{}{}", digs(r, 1 + r.below(2)), exp(r, 'e')),
-            7 => format!("0{}{}", if r.chance(1, 2) { "x" } else { "X" }, hex(r, 1 + r.below(6))),
+            0 => digs(r, n3),
+            1 => format!("{}.", digs(r, n1)),
+            2 => {
+                let a = digs(r, n1);
+                let b = digs(r, 1 + n2);
+                format!("{}.{}", a, b)
+            }
+            3 => format!(".{}", digs(r, n1)),
+            4 => {
+                let a = digs(r, n1);
+                let e = exp(r, 'e');
+                format!("{}{}", a, e)
+            }
+            5 => {
+                let a = digs(r, n1);
+                let b = digs(r, n2);
+                let e = exp(r, 'e');
+                format!("{}.{}{}", a, b, e)
+            }
+            6 => {
+                let a = digs(r, n1);
+                let e = exp(r, 'e');
+                format!(".{}{}", a, e)
+            }
+            7 => {
+                let x = if r.chance(1, 2) { "x" } else { "X" };
+                format!("0{}{}", x, hex(r, n3))
+            }
             8 => "9223372036854775807".into(),
-            9 => "9223372036854775808".into(),              // beyond 2^63: a float in Lua
-            10 => format!("123456789012345678901234567890{}", digs(r, r.below(10))),
-            11 => "0xffffffffffffffffffffff".into(),         // wraps around in Lua 5.3+, a float before
+            9 => "9223372036854775808".into(), // beyond 2^63: a float in Lua
+            10 => format!("123456789012345678901234567890{}", digs(r, n2)),
+            11 => "0xffffffffffffffffffffff".into(), // wraps around in Lua 5.3+, a float before
             _ => {
-                if self.lv >= 52 {
+                if lv >= 52 {
                     // hexadecimal floats (5.2+)
+                    let a = hex(r, n1);
+                    let b = hex(r, n2);
+                    let e = exp(r, 'p');
                     match r.below(5) {
-                        0 => format!("0x{}.", hex(r, 1 + r.below(3))),
-                        1 => format!("0x.{}", hex(r, 1 + r.below(3))),
-                        2 => format!("0x{}.{}{}", hex(r, 1 + r.below(3)), hex(r, r.below(3)), exp(r, 'p')),
-                        3 => format!("0x{}{}", hex(r, 1 + r.below(3)), exp(r, 'p')),
-                        _ => format!("0X.{}{}", hex(r, 1 + r.below(2)), exp(r, 'p')),
+                        0 => format!("0x{}.", a),
+                        1 => format!("0x.{}", a),
+                        2 => format!("0x{}.{}{}", a, b, e),
+                        3 => format!("0x{}{}", a, e),
+                        _ => format!("0X.{}{}", a, e),
                     }
                 } else {
-                    format!("0x{}", hex(r, 1 + r.below(8)))
+                    format!("0x{}", hex(r, n3))
                 }
             }
         }
@@ -234,7 +263,10 @@ impl<'a> Gen<'a> {
                 let s = self.long_string();
                 self.tk(&s);
             }
-            3 => self.tk(*self.rng.pick(&["nil", "true", "false"])),
+            3 => {
+                let w = *self.rng.pick(&["nil", "true", "false"]);
+                self.tk(w)
+            }
             4 if vararg => self.tk("..."),
             _ => {
                 let n = self.name();
@@ -351,7 +383,8 @@ impl<'a> Gen<'a> {
                 _ => self.expr(d.saturating_sub(1), vararg),
             }
             if i + 1 < n || self.rng.chance(1, 3) {
-                self.tk(if self.rng.chance(1, 2) { "," } else { ";" });
+                let sep = if self.rng.chance(1, 2) { "," } else { ";" };
+                self.tk(sep);
             }
         }
         self.tk("}");
@@ -731,7 +764,7 @@ fn kind_name(k: LuaSyntaxKind) -> Option<&'static str> {
         IndexExpr => "KIndex", CallExpr | RequireCallExpr | AssertCallExpr | ErrorCallExpr | TypeCallExpr | SetmetatableCallExpr => "KCall",
         CallArgList => "KArgs", TableEmptyExpr | TableArrayExpr | TableObjectExpr => "KTable", TableFieldAssign => "KFieldAssign",
         TableFieldValue => "KFieldValue", ClosureExpr => "KClosure",
-        _ => return None,
+        _ => return Option::None,
     })
 }
 
@@ -810,7 +843,12 @@ fn workspace(level: &str) -> Ws {
 }
 /// messages of the `syntax-error` diagnostics of the real diagnose_file
 fn syntax_diags(ws: &mut Ws, text: &str) -> Result<Vec<String>, String> {
-    let id: FileId = ws.analysis.update_file_by_uri(&ws.uri, Some(text.to_string())).ok_or("no file id")?;
+    let upd = guarded(|| ws.analysis.update_file_by_uri(&ws.uri, Some(text.to_string())));
+    let id: FileId = match upd {
+        Ok(Some(id)) => id,
+        Ok(None) => return Err("no file id".into()),
+        Err(p) => return Err(format!("panic in update_file_by_uri: {}", p)),
+    };
     let r = guarded(|| ws.analysis.diagnose_file(id, CancellationToken::new()));
     match r {
         Err(p) => Err(format!("panic: {}", p)),
@@ -1069,7 +1107,10 @@ fn main() {
                             report(format!("checker-rejects-valid:{}", msg_class(m)), format!("valid Lua {} program gets the syntax-error diagnostic '{}'", level, m));
                         }
                     }
-                    Err(p) => report("diagnose-panics".into(), p),
+                    Err(p) => {
+                        report(format!("analysis-panics:{}", msg_class(&p)), p);
+                        wss.insert(level, workspace(level));
+                    }
                 }
             }
             for v in &viol {
